@@ -667,6 +667,14 @@ def _check_requant(repo, R, h, hp, call, line, tparams, ops):
         R("C05", "C05.R10", "bad", h, line, "requantize input", f"value to re-quantize `{U(t)[:80]}` is not `op(..., {deq}, ...)`", "any input whose scale is not 1")
         return
     _check_reissue(R, h, hp, t, line, fallback=False)
+    if any(isinstance(c, ast.Call) and isinstance(c.func, ast.Name) and c.func.id not in ("dtype_info",) for c in ast.walk(sc)):
+        # a scale obtained from a module-level helper (possibly memoised: quantize_activation stores a copy of it) is the term the helper returns
+        from .core import inline
+        from .props.c13 import activation_entry_owns_scale
+        try:
+            sc = inline(repo, h.mi, sc, memo_ok=activation_entry_owns_scale(repo))
+        except AnalysisError:
+            pass
     stxt = U(sc)
     if "aten._softmax" in ops:
         # softmax output is in [0, 1]: optimal scale is 1 / max storage value of the operand's qtype
@@ -737,6 +745,50 @@ def _check_copy(R, h, hp, expr, line, tparams):
           "per_tensor.copy_(per_axis) or axis0.copy_(axis_last): accepted, the destination then declares an axis its scale does not broadcast along")
 
 
+def writeback_fallback(repo: Repo, name: str):
+    """Classify the paths of a dispatch-level helper `name(op, *args, **kwargs)`: a list of (kind, path) with kind "fallback" (returns
+    qfallback(op, *args, ...)), "writeback" (returns the destination - the first argument or the `out` keyword - or the result of a write into it)
+    or a description of the unrecognised end. None when `name` is not a function of the repo."""
+    if not name.isidentifier():
+        return None
+    try:
+        mi, fn = repo.func(name)
+    except AnalysisError:
+        return None
+    params = positional_params(fn)
+    if not params or fn.args.vararg is None:
+        return None
+    opn, argsn = params[0], fn.args.vararg.arg
+    kwn = fn.args.kwarg.arg if fn.args.kwarg is not None else None
+    dests = {f"{argsn}[0]"}
+    if kwn is not None:
+        dests |= {f"{kwn}.pop('out')", f"{kwn}['out']", f"{kwn}.get('out')", f"{kwn}.pop('out', None)"}
+    out = []
+    for p in paths_of(fn):
+        kind, expr, line = p.end
+        if kind == "raise":
+            continue
+        if kind != "return" or expr is None:
+            out.append((f"line {line}: {kind}", p))
+            continue
+        if isinstance(expr, ast.Call) and U(expr.func) == "qfallback":
+            a = [U(x) for x in expr.args]
+            out.append(("fallback" if a[:1] == [opn] and f"*{argsn}" in a else f"line {line}: qfallback without the forwarded arguments", p))
+            continue
+        e = expr
+        # dest.copy_(...) / dest
+        if isinstance(e, ast.Call) and isinstance(e.func, ast.Attribute) and e.func.attr in ("copy_",):
+            e = e.func.value
+        if U(e) in dests:
+            out.append(("writeback", p))
+        elif any(isinstance(x, ast.Call) and any(isinstance(a, ast.Starred) and U(a.value) == argsn for a in x.args) for x in ast.walk(expr)) and not any(U(x) in dests for x in ast.walk(expr)):
+            # the value of an operation re-issued on the arguments, with no write into the destination
+            out.append(("fresh", p))
+        else:
+            out.append((f"line {line}: returns `{U(expr)[:50]}`", p))
+    return out
+
+
 def _dispatch_rules(repo: Repo, hs) -> List[Rec]:
     """C05.R8 / R9: dispatch totality and the fallback."""
     recs = []
@@ -776,7 +828,23 @@ def _dispatch_rules(repo: Repo, hs) -> List[Rec]:
                 R("C05.R8", "ok" if ok else "bad", ci.mod, expr, qn, "fallback call", f"fallback called as `{U(expr)[:80]}` with the op packet and *args/**kwargs: {ok}", "any op without a handler")
                 n_ok += ok
             else:
-                R("C05.R8", "bad", ci.mod, expr, qn, "dispatch target", f"dispatch returns `{U(expr)[:80]}`: neither the registered handler nor qfallback", "any op")
+                # a write-back fallback: a repo function that either defers to qfallback with the forwarded arguments or returns the written destination
+                wb = writeback_fallback(repo, f)
+                if wb is None:
+                    R("C05.R8", "bad", ci.mod, expr, qn, "dispatch target", f"dispatch returns `{U(expr)[:80]}`: neither the registered handler nor qfallback", "any op")
+                else:
+                    fwd = args == [f"{opn}.overloadpacket", f"*{argsn}"] and kws in kw_forms
+                    conforms = all(k in ("fallback", "writeback") for k, _ in wb)
+                    fresh = [hp_ for k, hp_ in wb if k == "fresh"]
+                    if fresh:
+                        R("C05.R8", "bad", ci.mod, expr, qn, "write-back fallback returns a fresh tensor", f"`{f}` returns the value of the re-issued operation at line {fresh[0].end[2]} without writing it into the destination", "q.relu_() / q.zero_(): the operand comes back unchanged")
+                    elif not fwd:
+                        R("C05.R8", "bad", ci.mod, expr, qn, "write-back fallback call", f"write-back fallback called as `{U(expr)[:80]}`: the op packet and *args/**kwargs are not forwarded", "any mutating op without a handler")
+                    elif not conforms:
+                        R("C05.R8", "unknown", ci.mod, expr, qn, "write-back fallback call", f"`{f}` has a path ending outside the vocabulary of the rule (qfallback with the forwarded arguments / the written destination): {[k for k, _ in wb if k not in ('fallback', 'writeback')][:3]}")
+                    else:
+                        R("C05.R8", "ok", ci.mod, expr, qn, "write-back fallback call", f"write-back fallback `{f}` called with the op packet and *args/**kwargs; its {len(wb)} path(s) end in qfallback or return the written destination", "any mutating op without a handler")
+                        n_ok += 1
     # __torch_function__
     qt = repo.cls("QTensor")
     tf = qt.own("__torch_function__")
